@@ -37,7 +37,8 @@ EXPLANATION = (
     "Einstein targets a pair whose delta is already an object of the term stays if one of the delta's indices occurs exactly "
     "twice (delta*delta = delta would turn it into a target index); "
     "repeated to the fixed point; all other objects, prefactors, exponents, denominators kept), (2) have the same numerical value as the input "
-    "for an orthogonal 2x2 matrix and every assignment of the target indices (exact rationals), (3) carry the "
+    "for an orthogonal 2x2 matrix and every assignment of the target indices (exact rationals), with the sum convention "
+    "also the same target indices, (3) carry the "
     "assumptions of the input expression with no mixing of assumptions on the way. R20a: eligibility guards and delta "
     "indices (first/second position, mixed positions, shared index on a third object / third unitary tensor / provided "
     "target, only 2-index tensors). R20b: rebuilding (both occurrences removed, every other object multiplied back once "
@@ -764,6 +765,12 @@ def check_scenario(ctx, run, scn, fnnode):
                   key=f"{sid} value")
     except _Unknown as e:
         ctx.bad(rule, fnnode, f"{what}: the result contains a factor that is no tensor of the term: {e}", key=f"{sid} value")
+    # (2b) with the sum convention the result must have the target indices of the input
+    if scn.akey[3] is None:
+        wrong = [(c, d) for c, d in got if all(is_tens(b) for b in d) and einstein(d) != tg]
+        ctx.check(rule, fnnode, not wrong, f"{what}: target indices {sorted(tg)} by sum convention kept",
+                  f"{what}: the result {show_monos(wrong[:1])} has the target indices {sorted(einstein(wrong[0][1])) if wrong else ''} by sum "
+                  f"convention, the input has {sorted(tg)}", key=f"{sid} targets")
     # (3) assumptions
     ok = seen == [scn.akey] and not w.clash
     ctx.check(rule, fnnode, ok, f"{what}: assumptions of the expression kept",
@@ -1021,6 +1028,8 @@ def sweep(ctx):
                         bad.setdefault("value", []).append(f"{text} [targets {target}]: foreign factor {e}")
                     if seen != [scn.akey] or run.w.clash:
                         bad.setdefault("assumptions", []).append(f"{text} [targets {target}]")
+                    if target is None and any(all(is_tens(b) for b in d) and einstein(d) != tg for c, d in got):
+                        bad.setdefault("targets", []).append(f"{text} -> {show_monos(got)}")
                     # the same term with delta evaluation requested: the value must survive
                     outs = evaluate(ctx, run, scn, fnnode, ed=True)
                     if len(outs) != 1 or outs[0].kind != "return":
@@ -1036,7 +1045,8 @@ def sweep(ctx):
     ctx.note(f"sweep: {n} generated terms evaluated, {skipped} outside the decided domain")
     for aspect, fact in (("form", "result is a normal form of the reference rewriting"), ("value", "value unchanged for an orthogonal U"),
                          ("assumptions", "assumptions kept"), ("result", "a single result"),
-                         ("evaluated", "value unchanged after the requested delta evaluation")):
+                         ("evaluated", "value unchanged after the requested delta evaluation"),
+                         ("targets", "target indices by sum convention kept")):
         rule = "R20b" if aspect == "assumptions" else "R20c" if aspect == "evaluated" else "R20a"
         ctx.check(rule, fnnode, aspect not in bad, f"{n} generated terms: {fact}",
                   f"{len(bad.get(aspect, []))} of {n} generated terms: {fact} fails, e.g. {bad.get(aspect, [''])[0]}", key=f"sweep {aspect}")
